@@ -202,31 +202,53 @@ def r01_2(ctx):
                 gs = [(ng.key(t), p) for t, p in sc.guards(d.stmt)]
                 ok = ok and len(gs) == 1 and "depends_on" in gs[0][0] and gs[0][1] is True and gs[0][0].startswith("not(")
     ctx.check(ok, "_diffeq input t0", detail="absolute time of the step", expected="self.t (a dummy symbol only when the model does not depend on time)", found=ast.unparse(e) if e is not None else None, fi=g)
-    want_out = {"xf": "next", "qf": "quad"}
     sc = ctx.scope(g)
-    for nm, var in want_out.items():
-        e = outs.get(nm)
-        ok = isinstance(e, ast.Name)
+
+    def resolve_value(node):
+        """follow plain name aliases to the defining expression"""
+        for _ in range(6):
+            if isinstance(node, ast.Name):
+                ds = [d for d in sc.defs.get(node.id, []) if d.kind == "assign"]
+                if not ds:
+                    return node
+                node = max(ds, key=lambda d: d.order).value
+            else:
+                return node
+        return node
+
+    seen_lists = []
+    for nm, fam in (("xf", "self.states"), ("qf", "self.qstates")):
+        e = resolve_value(outs.get(nm))
+        ok = isinstance(e, ast.Call) and ast.unparse(e.func) in ("veccat", "vvcat", "vcat") and e.args
+        lst = None
         if ok:
-            ds = [d for d in sc.defs.get(e.id, []) if d.kind == "assign"]
-            ok = len(ds) >= 1 and ast.unparse(ds[-1].value) == "veccat(*val)"
-        ctx.check(ok, "_diffeq output %s" % nm, detail="output is not the declared update", expected="veccat of the declared next-values of the %s" % ("states" if nm == "xf" else "quadrature states"),
-                  found=ast.unparse(e) if e is not None else None, fi=g)
-    # _diffeq packs one declared update per (quadrature) state, in declaration order
-    loops = [l for l in walk_no_nested(g.node) if isinstance(l, ast.For)]
-    its = [ast.unparse(l.iter) for l in loops]
-    ctx.check(its == ["self.states", "self.qstates"], "_diffeq iterates states then quadrature states", detail="update packing order", expected=["self.states", "self.qstates"], found=its, fi=g)
-    for l in loops:
-        apps = [a for a in ast.walk(l) if is_call_to(a, "append", "val")]
-        v = l.target.id if isinstance(l.target, ast.Name) else None
-        ok = len(apps) == 1 and ast.unparse(apps[0].args[0]) == "self._state_next[%s]" % v
-        ctx.check(ok, "_diffeq takes the update declared for each state (%s)" % ast.unparse(l.iter), detail="update of another state", expected="val.append(self._state_next[k])",
-                  found="; ".join(ast.unparse(a) for a in apps), fi=g)
+            a0 = e.args[0].value if isinstance(e.args[0], ast.Starred) else e.args[0]
+            lst = a0.id if isinstance(a0, ast.Name) else None
+            ok = lst is not None
+        loop_ok = False
+        if ok:
+            # the list is filled in a loop over the matching state family with the update declared for that very state
+            for l in walk_no_nested(g.node):
+                if isinstance(l, ast.For) and ast.unparse(l.iter) == fam and isinstance(l.target, ast.Name):
+                    apps = [a for a in ast.walk(l) if is_call_to(a, "append", lst)]
+                    if len(apps) == 1 and ast.unparse(apps[0].args[0]) == "self._state_next[%s]" % l.target.id:
+                        # and this loop is the last one filling the list before the output is formed
+                        loop_ok = True
+                        seen_lists.append((nm, sc.order[l]))
+        ctx.check(ok and loop_ok, "_diffeq output %s" % nm, detail="output is not the stack of the updates declared for %s" % fam,
+                  expected="veccat(*[self._state_next[k] for k in %s])" % fam, found=ast.unparse(e)[:80] if e is not None else None, fi=g)
+    ctx.check(len(seen_lists) == 2 and seen_lists[0][1] < seen_lists[1][1], "_diffeq stacks states then quadrature states", detail="update packing order", expected="states first", found=str([x[0] for x in seen_lists]), fi=g)
     # the consumer reads only names the step maps provide
     d = prog.own_method("SamplingMethod", "discrete_system")
     used = set()
+    scd = ctx.scope(d)
+    res_names = set()
+    for c in find_keyword_calls(d, {"x0", "DT"}):
+        st = scd.stmt_of(c)
+        if isinstance(st, ast.Assign) and isinstance(st.targets[0], ast.Name):
+            res_names.add(st.targets[0].id)
     for sub in walk_no_nested(d.node):
-        if isinstance(sub, ast.Subscript) and isinstance(sub.value, ast.Name) and sub.value.id == "intg_res" and isinstance(sub.slice, ast.Constant):
+        if isinstance(sub, ast.Subscript) and isinstance(sub.value, ast.Name) and sub.value.id in res_names and isinstance(sub.slice, ast.Constant):
             used.add(sub.slice.value)
     ctx.check(used <= set(STEP_OUT) and "xf" in used and "qf" in used, "discrete_system reads only provided outputs", detail="output names", expected="subset of %s" % STEP_OUT, found=sorted(used), fi=d)
 
